@@ -15,8 +15,8 @@ from props import PROPS, SITE_NAMES
 
 VERIF = B.VERIF
 NCPU = int(os.environ.get("VERIF_JOBS", "16"))
-REPLAYS = os.path.join(VERIF, "replays")
-EVID = os.path.join(VERIF, "evidence")
+REPLAYS = os.environ.get("VERIF_REPLAYS_DIR", os.path.join(VERIF, "replays"))     # overridden only by driver/seedmatrix.sh
+EVID = os.environ.get("VERIF_EVIDENCE_DIR", os.path.join(VERIF, "evidence"))
 KNOWN = os.path.join(VERIF, "known_findings.json")
 
 def log(*a):
